@@ -384,6 +384,26 @@ fn sc_c01(seed: u64, thorough: bool) -> Vec<Scenario> {
                 }
             }
         }
+        // ONC-RPC calls whose AUTH_SYS credentials announce every kind of machine-name length
+        for announced in [0u32, 1, 3, 4, 255, 256, 0x7fff_ffff, 0x8000_0000, 0xffff_fffc, 0xffff_fffd, 0xffff_fffe, 0xffff_ffff] {
+            for present in [0usize, 3, 8] {
+                let mut cred = rng.u32().to_be_bytes().to_vec();
+                cred.extend_from_slice(&announced.to_be_bytes());
+                cred.extend_from_slice(&rng.bytes(present));
+                while cred.len() % 4 != 0 {
+                    cred.push(0);
+                }
+                cred.extend_from_slice(&[0, 0, 0, 0, 0, 0, 0, 0, 0, 0, 0, 0]);
+                let mut call = rpc::gen_call(&mut rng);
+                call.cred_flavor = 1;
+                call.cred = cred;
+                steps.push(Step::Frame(Flow::v4(43002, 111).udp(&call.encode())));
+                let fl = Flow::v6(43100 + (announced % 89) as u16 * 3 + present as u16, 111);
+                let ck = fl.cookie(&key);
+                steps.push(Step::Frame(fl.seg(0, 0, F_SYN, &[])));
+                steps.push(Step::Frame(fl.seg(1, ck.wrapping_add(1), F_PSH | F_ACK, &call.encode_tcp())));
+            }
+        }
         out.push(Scenario {
             name: format!("c01-stun-hostile-{}", ci),
             cfg: c,
@@ -747,7 +767,34 @@ fn sc_c10(seed: u64, thorough: bool) -> Vec<Scenario> {
             }
         }
     }
+    // every ordered pair of signatures as one datagram (and as a first TCP segment) that completes
+    // the first and carries the second's literals at the first's wildcard positions
+    let mut pair_steps = Vec::new();
+    {
+        let sigs = crate::apps::sig::signatures();
+        let mut sp2 = 36000u16;
+        for t in sigs.iter() {
+            for cpn in sigs.iter() {
+                let m = crate::apps::sig::companion_exact(t, cpn);
+                sp2 = sp2.wrapping_add(1);
+                pair_steps.push(Step::Frame(Flow::v4(sp2, 3478).udp(&m)));
+                if !t.end_anchored {
+                    let fl = Flow::v6(sp2, 8081);
+                    let ck = fl.cookie(&key);
+                    pair_steps.push(Step::Frame(fl.seg(0, 0, F_SYN, &[])));
+                    pair_steps.push(Step::Frame(fl.seg(1, ck.wrapping_add(1), F_PSH | F_ACK, &m)));
+                }
+            }
+        }
+    }
     vec![
+        Scenario {
+            name: "signature-pairs".into(),
+            cfg: c.clone(),
+            start_ms: START,
+            steps: pair_steps,
+            samples: 0,
+        },
         Scenario {
             name: "rpc-wildcard-bytes".into(),
             cfg: c.clone(),
